@@ -53,6 +53,7 @@ def handleRefine (j : Json) : R Json := do
     ("spec", refineSpecJson env sorted impl),
     ("model_spec", refineSpecJson env sorted m),
     ("global", b (allStartClearBy maxLen impl)),
+    ("kept", b (!nb || uncontestedCompleteKept env sorted impl)),
     ("scope", b (uniformLen env hits)),
     ("nontrivial", b (m.length < sorted.length && m.length > 0))]
 
@@ -232,7 +233,13 @@ def handleDomains (j : Json) : R Json := do
   let lens ← listOf asInt (← fld j "L")
   let genes ← listOf (listOf hitOfJson) (← fld j "genes")
   let doms := (genes.zip lens).map fun (g, l) => findDomainsGene env l g
+  let implDoms ← listOf (listOf hitOfJson) (fldD j "impl_doms" (jArr []))
+  let implMotifs ← listOf (listOf hitOfJson) (fldD j "impl_motifs" (jArr []))
+  let keptDoms := (genes.zip implDoms).all fun (g, out) =>
+    ((mustBeKept env (sortHits g)).filter fun x => !env.dock x.prof).all fun x => out.any fun m => covers m x
+  let keptMotifs := (genes.zip implMotifs).all fun (g, out) => uncontestedCompleteKept env (sortHits g) out
   return jObj [
+    ("kept", b (keptDoms && keptMotifs)),
     ("model", jArr (doms.map hitsToJson)),
     ("motifs", jArr (genes.map fun g => hitsToJson (findAbMotifsGene env g))),
     ("nontrivial", b ((genes.zip doms).any fun (g, d) => d.length < g.length && d.length > 0))]
@@ -245,7 +252,14 @@ def handleSubtypes (j : Json) : R Json := do
   let existing ← listOf (listOf hitOfJson) (← fld j "existing")
   let genes ← listOf (listOf hitOfJson) (← fld j "genes")
   let pairs := existing.zip genes
+  -- impl_internal: per gene, per target domain (in order), the hits attached to it by the real code
+  let implInternal ← listOf (listOf (listOf hitOfJson)) (fldD j "impl_internal" (jArr []))
+  let kept := (pairs.zip implInternal).all fun ((e, g), perDomain) =>
+    ((e.filter fun d => d.prof == target).zip perDomain).all fun (d, attached) =>
+      ((mustBeKept env (sortHits g)).filter fun x => overlapsWith x d).all fun x =>
+        attached.any fun s => covers s { x with prof := strip x.prof }
   return jObj [
+    ("kept", b kept),
     ("model", jArr (pairs.map fun (e, g) => hitsToJson (findSubtypesGene env target strip e g))),
     ("internal", jArr (pairs.map fun (e, g) =>
       jArr ((e.filter fun d => d.prof == target).map fun d => hitsToJson (subtypeHits env strip g d)))),
